@@ -14,8 +14,8 @@
      Find(req)      the transcription of LuaModuleIndex::{extract_module_path, match_pattern,
                     add_module_by_module_path, remove, find_module, exact_find_module, fuzzy_find_module}.
    TLC compares the two for every request in every reachable state (Agree), checks the tree invariants across
-   all add / re-add / remove histories (TreeOk, FuzzyOk), and prints every transition with the expected
-   resolution of every request for replay into the real index.                                               *)
+   all add / re-add / remove histories (TreeOk, FuzzyOk), and prints every (state, incoming transition) pair with
+   the history leading to it and the expected resolution of every request for replay into the real index.                                               *)
 EXTENDS Integers, Sequences, FiniteSets, TLC, Json
 
 CONSTANTS Files,        \* subset of the universe F1..F9 used by this configuration
@@ -101,23 +101,26 @@ RECURSIVE LexLess(_, _)
 LexLess(a, b) == IF a = <<>> THEN b # <<>> ELSE IF b = <<>> THEN FALSE
                  ELSE IF Rank(a[1]) # Rank(b[1]) THEN Rank(a[1]) < Rank(b[1]) ELSE LexLess(Tail(a), Tail(b))
 \* fuzzy candidates: (file, name) pairs whose name has req as a proper suffix; fewest leading parts, then name order
-FuzzyPick(req, NamesOf(_)) ==
-  LET cand == UNION {{<<f, m>> : m \in {x \in NamesOf(f) : IsSuffix(req, x)}} : f \in Present}
+\* (NT is a table [file -> set of names], computed once per state by the callers)
+FuzzyPick(req, NT) ==
+  LET cand == UNION {{<<f, m>> : m \in {x \in NT[f] : IsSuffix(req, x)}} : f \in Present}
       better(x, y) == \/ Len(x[2]) < Len(y[2])
                       \/ Len(x[2]) = Len(y[2]) /\ LexLess(x[2], y[2])
                       \/ x[2] = y[2] /\ ids[x[1]] <= ids[y[1]]
   IN IF cand = {} THEN "none" ELSE (CHOOSE x \in cand : \A y \in cand : x = y \/ better(x, y))[1]
 
-ResolveWith(req, NamesOf(_)) ==
-  LET exact(r) == {f \in Present : r \in NamesOf(f)} IN
+ResolveWith(req, NT) ==
+  LET exact(r) == {f \in Present : r \in NT[f]} IN
   IF exact(req) # {} THEN LowestId(exact(req))
   ELSE IF Norm(req) # req /\ exact(Norm(req)) # {} THEN LowestId(exact(Norm(req)))
   ELSE IF cfg.strict THEN "none"
-  ELSE IF Norm(req) # req /\ FuzzyPick(Norm(req), NamesOf) # "none" THEN FuzzyPick(Norm(req), NamesOf)
-  ELSE FuzzyPick(req, NamesOf)
+  ELSE IF Norm(req) # req /\ FuzzyPick(Norm(req), NT) # "none" THEN FuzzyPick(Norm(req), NT)
+  ELSE FuzzyPick(req, NT)
 
-Resolve(req) == ResolveWith(req, AllNames)
-ResolvePrimary(req) == ResolveWith(req, PrimaryName)
+AllNamesT == [f \in Files |-> AllNames(f)]
+PrimaryNameT == [f \in Files |-> PrimaryName(f)]
+Resolve(req) == ResolveWith(req, AllNamesT)
+ResolvePrimary(req) == ResolveWith(req, PrimaryNameT)
 
 \* ------------------------------------------------------------------------------------------------
 \* TRANSCRIPTION of LuaModuleIndex
@@ -221,7 +224,10 @@ Remove(f) == /\ n < MaxSteps /\ ids[f] # 0
              /\ n' = n + 1 /\ hist' = Append(hist, H("remove", f)) /\ UNCHANGED <<cfg, nextId>>
 Next == \E f \in Files : Add(f) \/ Remove(f)
 Spec == Init /\ [][Next]_vars
-View == <<cfg, ids, nodes, fuzzy, fmod>>
+\* The history is hidden; the label of the incoming transition is kept, so that every (state, incoming add / re-add /
+\* remove) pair is a distinct fingerprint and is printed once by the invariant Emit.  (Emission from an action
+\* constraint would evaluate everything primed, where TLC does not cache LET / argument values - 50x slower.)
+View == <<cfg, ids, nodes, fuzzy, fmod, IF hist = <<>> THEN <<>> ELSE hist[Len(hist)]>>
 
 \* ------------------------------------------------------------------------------------------------
 \* invariants
@@ -245,15 +251,17 @@ NameOk == \A i \in DOMAIN fmod : {fmod[i].name} = PrimaryName(FileOfId(i))
 \* pattern), so a request that reaches a file only through a less specific pattern - require("a.init") for
 \* a/init.lua - is not resolved (or resolved to something else) although the path matches the pattern ?.lua
 KF_SecondaryName(req) == Resolve(req) # ResolvePrimary(req)
-Agree == \A req \in Requests : Find(req) = ResolvePrimary(req)
-AgreeStrict == \A req \in Requests : Find(req) = Resolve(req)          \* violated exactly where KF_SecondaryName holds
+Agree == LET pt == PrimaryNameT IN \A req \in Requests : Find(req) = ResolveWith(req, pt)
+AgreeStrict == LET at == AllNamesT IN \A req \in Requests : Find(req) = ResolveWith(req, at)   \* violated exactly where KF_SecondaryName holds
 RemovedUnresolvable == \A req \in Requests : Find(req) = "none" \/ ids[Find(req)] # 0
 
 \* ------------------------------------------------------------------------------------------------
 Path(f) == Seg(f)
-FullStep == [cfg |-> cfg,
+FullStep == LET at == AllNamesT pt == PrimaryNameT IN
+            [cfg |-> cfg,
              present |-> [f \in Present |-> ids[f]],
-             res |-> {[req |-> r, find |-> Find(r), ref |-> Resolve(r), kf |-> KF_SecondaryName(r)] : r \in Requests},
+             res |-> {LET ra == ResolveWith(r, at) rp == ResolveWith(r, pt) IN
+                      [req |-> r, find |-> Find(r), ref |-> ra, kf |-> ra # rp] : r \in Requests},
              names |-> DOMAIN nodes,
              files_in_nodes |-> {[name |-> fmod[i].name, f |-> FileOfId(i)] : i \in DOMAIN fmod},
              sizes |-> [module_nodes |-> 1 + Cardinality(DOMAIN nodes),
@@ -262,7 +270,7 @@ FullStep == [cfg |-> cfg,
                         fuzzy_items |-> LET RECURSIVE S(_) S(K) == IF K = {} THEN 0 ELSE
                                                LET k == CHOOSE x \in K : TRUE IN Len(fuzzy[k]) + S(K \ {k})
                                         IN S(DOMAIN fuzzy)]]
-EmitEdge == PrintT(<<"S", ToJson([h |-> hist', step |-> FullStep'])>>)
+Emit == hist # <<>> => PrintT(<<"S", ToJson([h |-> hist, step |-> FullStep])>>)
 Universe9 == PrintT(<<"FILES", ToJson([f \in Universe |-> Seg(f)])>>)
 ASSUME Universe9
 =============================================================================
